@@ -3,9 +3,9 @@ package run
 // C16 — scan-based migration (rump) copies every scanned key faithfully; also serves C06 (rump filter application).
 //
 //vf:job C16 quick VF_C16_Rump pages=1 batch=1..2 cfg=0..4
-//vf:job C16 quick VF_C16_Rump pages=2 batch=2 cfg=0
+//vf:job C16 quickonly VF_C16_Rump pages=2 batch=2 cfg=0
 //vf:job C16 quick VF_C16_Rump pages=1 batch=2 cfg=5
-//vf:job C16 thorough VF_C16_Rump pages=2 batch=1..2 cfg=0..4
+//vf:job C16 thorough VF_C16_Rump pages=2 batch=1..2 cfg=0..4 opt_preempt=1
 //vf:job C06 quick VF_C16_Rump pages=1 batch=2 cfg=2..3
 //vf:job C06 thorough VF_C16_Rump pages=1 batch=2 cfg=0..4
 //vf:replayE C16 VF_C16_Rump
@@ -14,7 +14,7 @@ package run
 //vf:opt C06 delaybound=1 preempt=1
 //vf:stub C16 source connection: model source answering INFO keyspace, SELECT, pipelined DUMP/PTTL from a keyspace chosen by the harness (payloads symbolic, keys may have vanished); scanner.NewScanner: harness scanner returning the pages of the selected database (the SCAN reply parsing uses reflection and is outside); utils.StartQoS: always-ready bucket; time.NewTicker: fed by the harness; target connections: two model-target connections sharing one keyspace
 //vf:assume C16 source histories are monotone: a key absent at DUMP is absent at PTTL; the target is empty at start
-//vf:outside C16 Aliyun/Tencent scanners; QoS timing; statistics; pre-existing target keys
+//vf:outside C16 Aliyun/Tencent scanners; QoS timing; statistics; pre-existing target keys; two pages with more than one deviation from round-robin scheduling (the thorough tier runs two pages with delay bound 1 and one page with delay bound 2)
 
 import (
 	"strconv"
